@@ -468,7 +468,7 @@ class GroupedResidualVQ(Module):
 
     def get_output_from_indices(self, indices):
         outputs = tuple(rvq.get_output_from_indices(chunk_indices) for rvq, chunk_indices in zip(self.rvqs, indices))
-        return torch.cat(outputs, dim = self.split_dim)
+        return torch.cat(outputs, dim = -1)
 
     def forward(
         self,
